@@ -271,7 +271,7 @@ func runC14(c *core.Ctx, drv string, idx int) {
 		}
 		fails = append(fails, fs)
 		if fs.text != "" {
-			add(proto.Op{K: "sql", SQL: fs.text}, meta{kind: "fail", fs: fs})
+			add(proto.Op{K: "sql", SQL: proto.Text(fs.text)}, meta{kind: "fail", fs: fs})
 		} else {
 			add(proto.Op{K: "stmt", Stmt: fs.st}, meta{kind: "fail", fs: fs})
 		}
